@@ -96,8 +96,10 @@ Fixpoint rp (fuel : nat) (root : node) (cur : path) (rest : list comp) : option 
 
 (** [os.path.realpath(s)] with current directory [cwd] (a real path). *)
 Definition start_of (cwd : path) (s : str) : path := if isabs s then [] else cwd.
+Definition realpath_c (fuel : nat) (root : node) (cwd : path) (s : str) : option path :=
+  rp fuel root (start_of cwd s) (split_slash s).
 Definition realpath (fuel : nat) (root : node) (cwd : path) (s : str) : option str :=
-  match rp fuel root (start_of cwd s) (split_slash s) with
+  match realpath_c fuel root cwd s with
   | Some p => Some (render p)
   | None => None
   end.
